@@ -129,7 +129,7 @@ def stepLine (st : St) (line : String) : St × String :=
                 | true, some s =>
                     match sSplit s d vs ss (junkOf ss) with
                     | .error f => (.dead, showFault f)
-                    | .ok toks => (st, s!"{toks.length} {" ".intercalate (toks.map fun t => bytesHex t.contents)} | {showSRegs c m}")
+                    | .ok toks => (st, s!"{" ".intercalate (toString toks.length :: toks.map fun t => bytesHex t.contents)} | {showSRegs c m}")
                 | _, _ => (st, "bad")
             | _, _, _, _ => (st, "bad-op")
         | _ =>
